@@ -232,9 +232,19 @@ func H_C15_RecoverReady(v *verifrt.T) {
 	}
 	e.s = New("src", e.stage, e.final, e.logger, nil, nil)
 	v.Assert(e.s.Ready(), "ready before recovery starts")
+	// schedule: either the recovery worker runs to completion as soon as it is
+	// handed a file, or its hash pass is slow and everything else runs first
+	v.YieldOnRead(v.Choose("slow-hash-pass", 2) == 1)
 	e.s.Recover()
+	v.YieldOnRead(false)
 	ready := e.s.Ready()
 	v.Assert(ready, "C15 ready again after recovery")
+	// ... and at that moment recovery's own validation pass is over: no
+	// completely received file is still waiting for (or in) its hash pass,
+	// which new requests for the same name would race with
+	for _, f := range v.Files(e.stage) {
+		v.Assert(!strings.HasSuffix(f, ".full") && !strings.HasSuffix(f, ".part"), "C15 the staging area turns ready only after recovery has validated what it found")
+	}
 	v.Assert(seen > 0, "recovery consulted the log")
 	v.Reach("recovered")
 }
